@@ -453,6 +453,8 @@ fn located_levels(n: &Node) -> usize {
 }
 
 pub fn check_c04(ctx: &Ctx, n: &Node) -> Result<(), Fail> {
+    // (one source text is parsed per case for the span pool: forget the previous case's, or the process-wide source map grows without bound)
+    vmodel::util::fresh_spans();
     let pool = Pool::new();
     let (e, m) = build(n, &pool);
     let leaves = m.leaves();
@@ -620,6 +622,8 @@ pub fn check_c04(ctx: &Ctx, n: &Node) -> Result<(), Fail> {
 }
 
 pub fn check_c03a(ctx: &Ctx, n: &Node) -> Result<(), Fail> {
+    // (one source text is parsed per case for the span pool: forget the previous case's, or the process-wide source map grows without bound)
+    vmodel::util::fresh_spans();
     let pool = Pool::new();
     let (e, m) = build(n, &pool);
     let leaves = m.leaves();
